@@ -52,6 +52,84 @@ def part3_wiring(ctx):
                   "participant's own commitment, and from nothing else", p3.loc)
 
 
+ITEM2 = ("item2",)
+
+
+def vector_sum_kernel(ctx, f):
+    """sum_commitments: result[i] = sum over EVERY given commitment c of c.0[i], for every index i of a vector that starts as
+    [identity; len(first commitment)]; a commitment without an i-th coefficient is refused, not skipped.  Decided on the
+    elementwise step new[i] = old[i] + c.0[i], read either from the in-place form (outer loop over the commitments, inner loop over
+    `total.iter_mut().enumerate()` writing through the element reference) or from the functional form
+    (`try_fold(zero, |total, c| total.iter().enumerate().map(|(i, x)| ..).collect::<Result<Vec<_>, _>>())`)."""
+    from ..paths import loop_transfer, Unbounded
+    P = ctx.prog
+    v = FnView.get(P, f)
+    oks = ok_values(f, v)
+    res = unwrap_newtypes(oks[0]) if len(oks) == 1 else None
+    E = None            # elementwise step over ITEM (the commitment) and ITEM2 = (index, old element)
+    init = None
+    src_ok = False
+    why = "result not recognised"
+    try:
+        r = reduction_of(P, f, v, res) if res is not None else None
+        if r is not None and r["form"] in ("fold", "try_fold") and len(r["steps"]) == 1:
+            st = r["steps"][0]
+            while st[0] == "ok":
+                st = st[1]
+            if is_call(st, name="collect") and st[2] and is_call(st[2][0], name="map") and len(st[2][0][2]) == 2:
+                inner_src, clo2 = st[2][0][2]
+                if is_call(inner_src, name="enumerate") and strip_iter_calls(inner_src[2][0]) == ACC:
+                    body = closure_body(P, clo2, {2: ITEM2})
+                    alts = [a for a in ((body[2] if body[0] == "phi" else (body,)) if body is not None else ())]
+                    oks_ = [a[4][0][1] for a in alts if a[0] == "agg" and a[2] == "core::result::Result" and a[3] == "Ok"]
+                    errs_ = [a for a in alts if not (a[0] == "agg" and a[2] == "core::result::Result" and a[3] == "Ok")]
+                    if len(oks_) == 1 and all(a[0] in ("residual", "errval") or (a[0] == "agg" and a[3] == "Err") for a in errs_):
+                        E, init, src_ok = oks_[0], r["init"][0], r["source"] == ("arg", 1)
+                        why = ""
+        elif res is not None and res[0] == "mut":
+            base = res[1]
+            lps = loop_report(P, f)
+            outer = [lp for lp in lps if lp["iter_term"] is not None and strip_iter_calls(lp["iter_term"]) == ("arg", 1)]
+            inner = [lp for lp in lps if lp["iter_term"] is not None and is_call(strip_iter_calls(lp["iter_term"]), name="enumerate")
+                     and is_call(strip_iter_calls(lp["iter_term"])[2][0], name="iter_mut")
+                     and mentions(strip_iter_calls(lp["iter_term"])[2][0][2][0], lambda s_: s_ == base)]
+            if len(outer) == 1 and len(inner) == 1 and inner[0]["body"] < outer[0]["body"] and \
+                    not any(c == "break" for lp in (outer[0], inner[0]) for _, c in lp["exits"]):
+                it_o, it_i = outer[0]["iter_term"], inner[0]["iter_term"]
+                io = lambda x: x[0] == "some" and is_call(x[1], name="next") and x[1][2] and strip_iter_calls(x[1][2][0]) == ("arg", 1)
+                ii = lambda x: x[0] == "some" and is_call(x[1], name="next") and x[1][2] and is_call(strip_iter_calls(x[1][2][0]), name="enumerate") \
+                    and is_call(strip_iter_calls(x[1][2][0])[2][0], name="iter_mut")
+                steps = []
+                for p in loop_transfer(P, f, v, inner[0], set()):
+                    if p["end"] != "back":
+                        continue
+                    ws = [(l, x) for l, x in p["deref_writes"].items() if subst(p["cx"].local(l), [(ii, ITEM2)]) == ("field", ITEM2, None, "1")]
+                    steps.append(subst(ws[0][1], [(ii, ITEM2), (io, ITEM)]) if len(ws) == 1 else None)
+                if steps and all(x is not None and x == steps[0] for x in steps):
+                    E, init, src_ok = steps[0], base, True
+                    why = ""
+                else:
+                    why = "an inner iteration can complete without updating its element"
+    except Unbounded as e:
+        why = str(e)
+    good = E is not None and src_ok
+    if good:
+        e_ = unwrap_newtypes(E)
+        old = lambda t: strip_newtype_fields(t) == ("field", ITEM2, None, "1")
+        coeffs = lambda t: t == ITEM or (t[0] == "field" and t[3] == "0" and t[1] == ITEM) or strip_newtype_fields(t) == ITEM
+        oth = lambda t: (lambda u: u[0] == "some" and is_call(u[1], name="get") and coeffs(u[1][2][0]) and u[1][2][1] == ("field", ITEM2, None, "0"))(strip_newtype_fields(t))
+        good = is_call(e_, name="add") and len(e_[2]) == 2 and ((old(e_[2][0]) and oth(e_[2][1])) or (old(e_[2][1]) and oth(e_[2][0])))
+        why = "elementwise step is %s" % fmt(e_)[:160]
+    ctx.check(good, "AGREE", f.key, "sum[i]==sum_over_all_commitments(c[i])",
+              "sum_commitments must add, for every index, the i-th coefficient of every given commitment to the i-th slot (a short "
+              "commitment refused): %s" % why, f.loc)
+    first_len = lambda t: (is_call(t, name="len") and len(t[2]) == 1 and
+                           mentions(t[2][0], lambda s_: s_[0] == "some" and is_call(s_[1], name="first") and s_[1][2][0] == ("arg", 1)))
+    good = init is not None and is_call(init, name="from_elem") and len(init[2]) == 2 and is_call(unwrap_newtypes(init[2][0]), name="identity") and first_len(init[2][1])
+    ctx.check(good, "AGREE", f.key, "starts-from-[identity; len(first)]",
+              "the running total must start as one identity element per coefficient of the first commitment", f.loc)
+
+
 def helpers(ctx):
     P = ctx.prog
     f = ctx.anchor(CORE + "keys::PublicKeyPackage::<C>::from_dkg_commitments")
@@ -92,18 +170,8 @@ def helpers(ctx):
                   "its constant term; threshold = its length (not truncated)", f.loc)
     f = ctx.anchor(CORE + "keys::sum_commitments")
     if f:
-        lr = reductions(ctx, f.key, adaptors={}, min_loops=2)
-        v = FnView.get(P, f)
-        if lr and len(lr) >= 2:
-            outer = [lp for lp in lr if lp["iter_term"] == ("iter", ("arg", 1))]
-            ctx.check(len(outer) == 1, "RED", f.key, "outer-loop-over-every-commitment", "sum_commitments must iterate all commitments", f.loc)
-            inner = [lp for lp in lr if lp["iter_term"] is not None and mentions(lp["iter_term"], lambda s: is_call(s, name="iter_mut"))]
-            ctx.check(len(inner) == 1 and mentions(inner[0]["iter_term"], lambda s: is_call(s, name="enumerate")), "RED", f.key,
-                      "inner-loop-over-every-coefficient-index", "sum_commitments must update every coefficient slot", f.loc)
-            # missing coefficient -> Err (length mismatch is refused, not truncated)
-            g = [e for (e, fa) in v.facts if fa[0] == "succ" and fa[1][0] == "ok_or" and is_call(fa[1][1], name="get") and not fa[2]]
-            ctx.check(bool(g) and all(fail_is_error(f, e) for e in g), "SEP", f.key, "short-commitment-refused",
-                      "a commitment with fewer coefficients than the first must be refused, not truncated", f.loc)
+        reductions(ctx, f.key, adaptors={}, min_loops=0)
+        vector_sum_kernel(ctx, f)
     # Taproot post-processing + default
     f = None if ctx.core_only else ctx.anchor("<frost_secp256k1_tr::Secp256K1Sha256TR as frost_core::traits::Ciphersuite>::post_dkg")
     if f:
